@@ -21,6 +21,8 @@ LABELS = {
     "float": [0.5, 1.5, 2.0, 10.0, 10.5, 33.0],
     "str": ["a", "b", "cc", "d", "ee", "f"],
     "range": [0, 1, 2, 3, 4, 5],
+    # signed integer labels (token 2 is label 0): requested labels may be given as a pandas RangeIndex
+    "srange": [-3, -2, 0, 1, 2, 3],
     # a wide universe of float levels (token t -> t/2): many requested labels at once
     "wide": [t * 0.5 for t in range(80)],
     "widestr": [f"k{t:02d}" for t in range(80)],
@@ -97,6 +99,13 @@ def build_kwargs(case) -> dict:
         tab = LABELS[kind]
         vals = [tab[t] for t in case["req"]]
         kw["expected_groups"] = np.array(vals, dtype=object if kind in ("str", "widestr") else None)
+        if case.get("req_range"):
+            # the same labels as a pandas RangeIndex (they must form an increasing arithmetic progression)
+            import pandas as pd
+
+            step = vals[1] - vals[0] if len(vals) > 1 else 1
+            assert step > 0 and all(b - a == step for a, b in zip(vals, vals[1:])), vals
+            kw["expected_groups"] = pd.RangeIndex(vals[0], vals[-1] + step, step)
     if not case.get("sort", True):
         kw["sort"] = False
     if case.get("fill") is not None:
